@@ -66,8 +66,16 @@ var parserWorkReceiveChannel = func() chan<- jobIn {
 					}
 
 					values := make([]octosql.Value, len(job.fields))
-					for i := range values {
-						values[i], _ = getOctoSQLValue(job.fields[i].Type, o.Get(job.fields[i].Name))
+					for j := range values {
+						var ok bool
+						values[j], ok = getOctoSQLValue(job.fields[j].Type, o.Get(job.fields[j].Name))
+						if !ok {
+							out.err = fmt.Errorf("value of field '%s' doesn't match its inferred type %s", job.fields[j].Name, job.fields[j].Type)
+							break
+						}
+					}
+					if out.err != nil {
+						continue
 					}
 
 					out.record = NewRecord(values, false, time.Time{})
